@@ -583,7 +583,9 @@ func (ch *channel) Reject(reason RejectionReason, message string) error {
 	// removing it from chanList is sufficient for GC. Calling close()
 	// would race with the mux loop goroutine (handlePacket or dropAll),
 	// causing a panic from closing an already-closed channel.
-	ch.mux.chanList.remove(ch.localId)
+	// Only remove this very channel: after a CLOSE from the peer the id may
+	// already belong to another channel.
+	ch.mux.chanList.removeChan(ch.localId, ch)
 
 	return err
 }
